@@ -279,7 +279,7 @@ impl Property for C18 {
         (pair, seconds(), seconds(), unit, proptest::sample::select(all_forms())).prop_map(|((a, b), v, w, unit, form)| Scenario { a, b, v, w, unit, form }).boxed()
     }
     fn cases(tier: Tier) -> u32 {
-        tier.pick(150_000, 600_000)
+        tier.pick(150_000, 1_800_000)
     }
     fn exhaustive(_tier: Tier, sink: &mut dyn FnMut(Scenario)) -> Vec<String> {
         let mut n = 0u64;
